@@ -100,6 +100,7 @@ NewEndpoint(cfg, isn, rnxt0, pwnd0, now) ==
       probeQ   |-> FALSE,      \* a size probe is queued or outstanding (nothing more is segmented meanwhile)
       \* bookkeeping
       txCount  |-> 0, rxCount |-> 0, synAcks |-> 0, lastRxAt |-> now, lastWire |-> now,
+      eofDue   |-> 0,          \* the peer's FIN was taken in while a read was waiting (trace line)
       lastDataRxAt |-> -1,     \* when the last DATA / FIN packet was taken in
       lastEmitAt |-> -1,       \* when this endpoint last emitted a datagram (whatever its fate)
       tRtx     |-> -1, tAck |-> -1, idleArmed |-> -1, ringCap |-> cfg.tx_init, txPending |-> FALSE,
